@@ -30,6 +30,7 @@ import (
 	api "k8s.io/api/core/v1"
 	networking "k8s.io/api/networking/v1"
 	"sigs.k8s.io/controller-runtime/pkg/client"
+	gatewayv1 "sigs.k8s.io/gateway-api/apis/v1"
 
 	"verif/harness/lib/c06"
 	"verif/harness/lib/hx"
@@ -42,6 +43,7 @@ var (
 	universe = c06.Universe()
 	dumpDir  = flag.String("dump", "", "replay only: copy what every run wrote (etc/haproxy) below this directory")
 	mkCorpus = flag.String("mkcorpus", "", "write the hand made corpus cases into this directory and exit")
+	gwOnly   = flag.Bool("gwonly", false, "exploration: every generated case gets gateway api objects")
 )
 
 // input is one oracle case (also the replay format).
@@ -62,7 +64,7 @@ type ocase struct {
 }
 
 func (c ocase) encode() input {
-	in := input{Objs: world.EncodeObjs(c.objs), Opts: c.opts, Runs: c.runs, Note: c.note}
+	in := input{Objs: c06.EncodeObjs(c.objs), Opts: c.opts, Runs: c.runs, Note: c.note}
 	if len(c.batch) > 0 {
 		in.Batch = world.EncodeHistory([][]pipeline.Change{c.batch})[0]
 	}
@@ -70,7 +72,7 @@ func (c ocase) encode() input {
 }
 
 func decode(in input) ocase {
-	c := ocase{objs: world.DecodeObjs(in.Objs), opts: in.Opts, runs: in.Runs, note: in.Note}
+	c := ocase{objs: c06.DecodeObjs(in.Objs), opts: in.Opts, runs: in.Runs, note: in.Note}
 	if len(in.Batch) > 0 {
 		c.batch = world.DecodeHistory([][]world.ChangeJSON{in.Batch})[0]
 	}
@@ -433,6 +435,9 @@ func describe(c ocase) string {
 		if ing, ok := o.(*networking.Ingress); ok {
 			s += fmt.Sprintf(" stamp=%d hosts=%v", ing.CreationTimestamp.Unix(), hostsOf(ing))
 		}
+		if rt, ok := o.(*gatewayv1.HTTPRoute); ok {
+			s += fmt.Sprintf(" stamp=%d hostnames=%v rules=%d", rt.CreationTimestamp.Unix(), rt.Spec.Hostnames, len(rt.Spec.Rules))
+		}
 		parts = append(parts, s)
 	}
 	out := strings.Join(parts, "; ")
@@ -458,7 +463,13 @@ func genCase(rng *rand.Rand, i int, withBatch bool) ocase {
 	if i%7 == 6 {
 		c.opts.WatchWithoutClass = false
 	}
-	c.objs = c06.Stamp(c06.GenCluster(rng, cfg, level))
+	objs := c06.GenCluster(rng, cfg, level)
+	if i%6 == 5 || *gwOnly {
+		// gateway api next to (or instead of most of) the ingresses
+		c.opts.GatewayV1 = true
+		objs = append(objs, c06.GenGateways(rng)...)
+	}
+	c.objs = c06.Stamp(objs)
 	if withBatch {
 		if level > 0 {
 			cfg.HostPool, cfg.PathPool = c06.Hosts, c06.Paths
@@ -498,10 +509,10 @@ func main() {
 			cases = append(cases, decode(in))
 			isCorpus = append(isCorpus, true)
 		}
-		nCluster := o.Count(36, 1500)
-		nBatch := o.Count(18, 800)
+		nCluster := o.Count(36, 800)
+		nBatch := o.Count(18, 400)
 		if o.Search {
-			nCluster, nBatch = o.Count(400, 4000), o.Count(150, 1500)
+			nCluster, nBatch = o.Count(400, 1500), o.Count(150, 700)
 		}
 		for i := 0; i < nCluster; i++ {
 			cases = append(cases, genCase(rng, i, false))
